@@ -33,6 +33,8 @@ def _grid(tier):
                         continue
                     if nq == 3 and tier == 'quick' and not (ns == 1 and k == 2 and list(meas) == [0, 1]):
                         continue
+                    if nq == 3 and k == 3 and ranks == [1, 2, 2, 1]:
+                        continue        # three measured qubits of a rank-2 state: z3 ignores timeout and interrupt on the conditional of the last site (measured twice); not claimed
                     out.append({'nq': nq, 'ranks': ranks, 'measure': list(meas), 'ns': ns})
     # mixed dtypes per core (a real state with complex single-qubit gates on later sites), site 0 measured or not
     for mask in ('last', 'inner'):
